@@ -17,6 +17,23 @@ fn main() {
         eprintln!("harness error: no scenario for {}", args.prop);
         std::process::exit(2);
     };
+    // Every mode runs under the getrandom shim (replay and --one included), so that hash
+    // seeds and thread_rng are a function of the case: re-exec once with LD_PRELOAD set.
+    if !kit::runner::shim_loaded() && std::env::var("VERIF_REEXEC").is_err() {
+        let shim = format!("{}/target/libdetrand.so", kit::runner::verif_dir());
+        if std::path::Path::new(&shim).exists() {
+            use std::os::unix::process::CommandExt;
+            let err = std::process::Command::new(std::env::current_exe().expect("exe"))
+                .args(&argv[1..])
+                .env("LD_PRELOAD", shim)
+                .env("VERIF_HASH_SEED", "1")
+                .env("RAYON_NUM_THREADS", "1")
+                .env("VERIF_REEXEC", "1")
+                .exec();
+            eprintln!("harness error: re-exec under the shim failed: {err}");
+            std::process::exit(2);
+        }
+    }
     let code = kit::runner::main_for(sc.as_ref(), &args);
     std::process::exit(code);
 }
